@@ -1,4 +1,4 @@
-import CardVerif.Spec.Legality
+import CardModel.Spec.Legality
 import CardVerif.Proofs.Accept
 import CardVerif.Proofs.RaiseHistory
 /-!
